@@ -21,6 +21,26 @@ def parseComp? (s : String) : Option CompArg :=
   else if s.startsWith "d:" then (parseList? parseKV? (s.drop 2).toString).map CompArg.opts
   else none
 
+/-- `N` | `nan` | `i:<int>` | `f:<rat>` | `np:<dtype>:<rat>` | `a0:<dtype>:<rat>` | `npnan:<dtype>` -/
+def parseNum? (s : String) : Option (Option Num) :=
+  if s = "N" then some none
+  else if s = "nan" then some (some (.nan "float"))
+  else match s.splitOn ":" with
+    | ["i", v] => (parseInt? v).map fun v => some (.pyInt v)
+    | ["f", v] => (parseRat? v).map fun v => some (.pyFloat v)
+    | ["np", d, v] => (parseRat? v).map fun v => some (.npScalar d v)
+    | ["a0", d, v] => (parseRat? v).map fun v => some (.arr0d d v)
+    | ["npnan", d] => some (some (.nan d))
+    | _ => none
+
+def parseEntry? (s : String) : Option Entry :=
+  if s = "write_cog" then some .writeCog else if s = "to_cog" then some .toCog
+  else if s = "write_cog_layers" then some .writeCogLayers else if s = "write_cog_ovrs" then some .writeCogOverviews else none
+
+def fmtGeoTags : OdcGeo.Cog.GeoTags → String
+  | .scaleTie sc tie => "33550=" ++ fmtList fmtRat sc ++ " 33922=" ++ fmtList fmtRat tie
+  | .matrix m => "34264=" ++ fmtList fmtRat m
+
 def run (args : List String) : Option String :=
   match args with
   | ["layout", sh, gy, gx] => do
@@ -44,6 +64,23 @@ def run (args : List String) : Option String :=
     let (acts, err) := writePlan m e o
     let a := fmtList (fun a => match a with | Act.unlink => "unlink" | Act.write => "write") acts
     pure (if err then s!"{a} ERR:OSError" else s!"{a} ok")
+  | ["nodata", e, kw, att] => do
+    let e ← parseEntry? e; let kw ← parseNum? kw; let att ← parseNum? att
+    pure (match resolveNodata e kw att with
+      | none => "N"
+      | some n => match n.value with | none => "nan" | some v => fmtRat v)
+  | ["alevels", req, sh, gy, gx] => do
+    let req ← parseOpt? (parseList? parseNat?) req; let sh ← parseList? parseNat? sh
+    let gy ← parseNat? gy; let gx ← parseNat? gx
+    pure (match levelsForArray req sh ⟨gy, gx⟩ with
+      | .error e => fmtLErr e
+      | .ok l => fmtList fmtNat l)
+  | ["geotags", a] => do
+    let a ← parseAff? a
+    pure (fmtGeoTags (OdcGeo.Cog.encodeTransform a))
+  | ["ncompfresh", c] => do
+    let c ← parseComp? c
+    pure (fmtBool (normCompressionFresh c))
   | ["ncomp", c] => do
     let c ← parseComp? c
     pure (fmtList (fun (k, v) => s!"{k}={v}") (normCompressionOpts c))
